@@ -99,7 +99,13 @@ def run(ctx, idx):
             yield x
 
     if isinstance(e, ast.BoolOp) and isinstance(e.op, ast.Or):
-        for v in flat_or(e):
+        vals_ = list(flat_or(e))
+        # `(not A and B) or A or C` has the value of `A or B or C` for every A, B, C (B is consulted only when A is falsy, and a
+        # falsy A then contributes nothing): read it in that order
+        if len(vals_) >= 2 and isinstance(vals_[0], ast.BoolOp) and isinstance(vals_[0].op, ast.And) and len(vals_[0].values) == 2 \
+                and isinstance(vals_[0].values[0], ast.UnaryOp) and isinstance(vals_[0].values[0].op, ast.Not) and ast.dump(vals_[0].values[0].operand) == ast.dump(vals_[1]):
+            vals_ = [vals_[1], vals_[0].values[1]] + vals_[2:]
+        for v in vals_:
             if find_args(v):
                 order.extend(find_args(v))
             else:
@@ -222,6 +228,38 @@ def run(ctx, idx):
         if guard is None:
             ctx.violate("C16.b", con, utils.rel, rz.lineno, "the conversion raises unconditionally inside its loop")
             continue
+        # a refusal by pattern: `not <compiled pattern>.match(name)`.  It takes nothing away from the property when every name
+        # the MPilot syntax allows in front of `=` (the lexer's ID token) matches - what is refused then has no MPilot file to be
+        # equal to; a pattern narrower than ID refuses models whose translation exists (language inclusion on the two automata)
+        g_ = guard
+        if isinstance(g_, ast.UnaryOp) and isinstance(g_.op, ast.Not) and isinstance(g_.operand, ast.Call) and isinstance(g_.operand.func, ast.Attribute) and g_.operand.func.attr in ("match", "fullmatch") \
+                and isinstance(g_.operand.func.value, ast.Name):
+            from engine import regexlang as RL_
+            from engine.grammar import Lexicon
+            pat = None
+            for st_ in utils.tree.body:
+                if isinstance(st_, ast.Assign) and any(isinstance(t_, ast.Name) and t_.id == g_.operand.func.value.id for t_ in st_.targets) and isinstance(st_.value, ast.Call) and st_.value.args:
+                    try:
+                        pat = idx.const(utils, st_.value.args[0])
+                    except Exception:
+                        pat = None
+            if not isinstance(pat, str):
+                raise AnalysisError("C16.b: the result-name pattern `%s` is not a literal" % g_.operand.func.value.id)
+            core = pat
+            for suf in ("\\Z", "$"):
+                if core.endswith(suf):
+                    core = core[: -len(suf)]
+            if core.startswith("^"):
+                core = core[1:]
+            lex_ = Lexicon(idx)
+            idr = lex_.rule("ID")
+            if idr is None:
+                raise AnalysisError("C16.b: token ID vanished")
+            wit = RL_.not_included(RL_.dfa(idr.pattern), RL_.dfa(core))
+            ctx.ob("C16.b", con, utils.rel, rz.lineno, wit is None,
+                   "names are refused by a pattern that admits every name the MPilot syntax admits (L(ID) is included in it)" if wit is None else
+                   "the conversion refuses result names that do not match `%s`, but the MPilot syntax allows more: `%s` is a valid result name (token ID) the pattern rejects, so an EEMS 2.0 model whose translation `%s = ...` loads is refused" % (pat, wit, wit))
+            continue
         absent = set()
         conj = guard.values if isinstance(guard, ast.BoolOp) and isinstance(guard.op, ast.And) else [guard]
         for t in conj:
@@ -240,7 +278,9 @@ def run(ctx, idx):
             elif find_arg(inner):
                 absent.add(find_arg(inner))
             elif isinstance(inner, ast.BoolOp) and isinstance(inner.op, ast.Or):
-                for v in flat_or(inner):
+                for v in [y for x in flat_or(inner) for y in (x.values if isinstance(x, ast.BoolOp) and isinstance(x.op, ast.And) else [x])]:
+                    while isinstance(v, ast.UnaryOp) and isinstance(v.op, ast.Not):
+                        v = v.operand
                     if is_node_attr(v, "result_name"):
                         absent.add("own result name")
                     elif find_args(v):
@@ -579,6 +619,26 @@ def _kept_by_name(idx, fi, listname, is_node_attr):
     return False, "an argument named %s %s" % (c, "can stay in the converted command" if want[c] == {False} else "can be dropped from the converted command")
 
 
+def _reset_by_every_reusing_caller(idx, pcls, attr):
+    """every function outside Parser that calls .parse on a parser object it did not just build stores a constant into
+    <that object>.<attr> on every path to the call"""
+    found = False
+    for mod, f, n in K.scoped_nodes(idx):
+        if not (isinstance(n, ast.Call) and isinstance(n.func, ast.Attribute) and n.func.attr == "parse" and f is not None and f.cls is not pcls):
+            continue
+        recv = n.func.value
+        if isinstance(recv, ast.Call) or "parser" not in K.src(recv).lower():
+            continue
+        cfg = K.cfg_of(idx, f)
+        recv_src = K.src(recv)
+        calls = [c for c in cfg.find("call") if isinstance(c.ast.func, ast.Attribute) and c.ast.func.attr == "parse" and K.src(c.ast.func.value) == recv_src]
+        resets = {x for x in cfg.find("store") if x.meta.get("attr") == attr and isinstance(x.ast, ast.Attribute) and K.src(x.ast.value) == recv_src and isinstance(x.meta.get("value"), ast.Constant)}
+        if not calls or not resets or not all(cfg.must_pass_through(cfg.entry, c, resets) for c in calls):
+            return False
+        found = True
+    return found
+
+
 def parser_state(ctx, idx, rule):
     """Per-parse state written by grammar actions (e.g. the EEMS 2.0 flag) must not survive into the next parse."""
     pmod = idx.module_of("mpilot.parser.parser")
@@ -622,6 +682,8 @@ def parser_state(ctx, idx, rule):
             ctx.hold(rule, con, pmod.rel, parse.node.lineno, "`%s` is reset at the start of every parse" % attr)
         elif fresh_everywhere and n_sites:
             ctx.hold(rule, con, pmod.rel, m.node.lineno, "`%s` is never reset by parse(), but every load builds a fresh Parser (%d call site(s))" % (attr, n_sites))
+        elif _reset_by_every_reusing_caller(idx, pcls, attr):
+            ctx.hold(rule, con, pmod.rel, m.node.lineno, "`%s` is put back by every caller that reuses a parser object, on every path to its parse call" % attr)
         else:
             mod, n = stale_site if stale_site else (pmod, parse.node)
             ctx.violate(rule, con, mod.rel, n.lineno, "`%s` is set by the grammar action %s and never reset, and `%s` reuses a parser object: after one EEMS 2.0 file every later file is treated as EEMS 2.0 and loses its NewFieldName/OutFileName arguments" % (attr, m.name, K.src(n)[:50]))
